@@ -21,6 +21,8 @@ Deliberately NOT demanded (the property text is silent or forml's behaviour is d
 * a placeholder that is the *tail* of a composed segment (or a lone placeholder segment) is ignored by
   ``Segment.accept`` by design ("potential tail Future node is ignored") and is not counted as "still containing
   placeholders" (counted in ``composition_trailing_placeholder_accepted``);
+* ``Segment(placeholder, tail)`` where ``tail`` publishes into that placeholder: forml treats the placeholder as equal
+  to its publisher (Node.__eq__), i.e. the segment is the single node ``tail`` and the cycle lies beyond it;
 * cycles on sink branches / beyond an explicit tail; placeholder-only cycles of length >= 2, Train/Label ports of
   placeholders, out-of-range port numbers and placeholders with szin != szout are never generated (forml only ever
   creates 1x1 placeholders and addresses them through Apply ports).
